@@ -154,6 +154,61 @@ def _empty_row_reaches(cfg, fi, head, rowvar, subs, model="empty"):
 
 
 
+def _fixed_dialects(idx, fi, name, depth=0):
+    """every binding of local `name` is a fixed csv dialect (csv.excel, csv.excel_tab, ..., a class of the module derived from one
+    with constant attributes) or an element of a local collection of such: the set of their names; None when anything else is bound"""
+    out = set()
+
+    def dialect_of(e):
+        q = idx.qualname(fi.module, e, fi) or ""
+        if q in ("csv.excel", "csv.excel_tab", "csv.unix_dialect"):
+            return {q}
+        r = idx.resolve(fi.module, e, fi) if isinstance(e, (ast.Name, ast.Attribute)) else None
+        if r is not None and r[0] == "class":
+            ci = r[1]
+            bases = [idx.qualname(ci.module, b, None) or K.src(b) for b in ci.node.bases]
+            if bases and all(b in ("csv.excel", "csv.excel_tab", "csv.unix_dialect", "csv.Dialect") for b in bases) and all(isinstance(v, ast.Constant) for v in ci.attrs.values()):
+                return {ci.qual}
+        return None
+
+    def collection_of(e, d=0):
+        if isinstance(e, (ast.Tuple, ast.List)):
+            got = set()
+            for x in e.elts:
+                dx = dialect_of(x)
+                if dx is None:
+                    return None
+                got |= dx
+            return got
+        if isinstance(e, (ast.ListComp, ast.GeneratorExp)) and len(e.generators) == 1 and isinstance(e.elt, ast.Name) and isinstance(e.generators[0].target, ast.Name) and e.elt.id == e.generators[0].target.id:
+            return collection_of(e.generators[0].iter, d + 1)
+        if isinstance(e, ast.Name) and d < 3:
+            defs = [n.value for n in own_nodes(fi.node) if isinstance(n, ast.Assign) and any(isinstance(t, ast.Name) and t.id == e.id for t in n.targets)]
+            if len(defs) == 1:
+                return collection_of(defs[0], d + 1)
+        return None
+
+    stores = [t for t in ast.walk(fi.node) if isinstance(t, ast.Name) and t.id == name and isinstance(t.ctx, ast.Store)]
+    defs = [n for n in ast.walk(fi.node) if isinstance(n, ast.Assign) and len(n.targets) == 1 and isinstance(n.targets[0], ast.Name) and n.targets[0].id == name]
+    comps = [g for n in ast.walk(fi.node) if isinstance(n, (ast.ListComp, ast.GeneratorExp, ast.SetComp)) for g in n.generators if isinstance(g.target, ast.Name) and g.target.id == name]
+    if not stores or len(stores) != len(defs) + len(comps):
+        return None
+    for g in comps:
+        dv = collection_of(g.iter)
+        if dv is None:
+            return None
+        out |= dv
+    for n in defs:
+        v = n.value
+        dv = dialect_of(v)
+        if dv is None and isinstance(v, ast.Subscript):
+            dv = collection_of(v.value)
+        if dv is None:
+            return None
+        out |= dv
+    return out
+
+
 def run(ctx, idx):
     ctx.assume("csv.reader yields one list per physical row for unquoted numeric data; blank lines yield empty lists")
     ctx.rule("C17.a", "Parameters mean what they clean to: every kwargs.get default and every literal compared with a cleaned parameter lies in the cleaned domain of its declared type (a DataType cleans to a type object).")
@@ -175,6 +230,7 @@ def run(ctx, idx):
                "no cached helper on the path" if not memo else "`%s` is cached with `@%s`: a column read once is returned again after the file changed" % (memo[0][0].name, memo[0][1]))
     ctx.rule("C17.i", "The table format is fixed: csv.reader / csv.writer are given the line source (and constant format options) only - no dialect sniffed from the data, no delimiter computed at run time. A guessed delimiter turns a one-column table of decimals into two columns at the decimal point.")
     n_csv = 0
+    undecided_ = []
     for d_, _r in (rd, wr):
         fi_ = d_.execute
         for n_ in ast.walk(fi_.node):
@@ -188,9 +244,19 @@ def run(ctx, idx):
                 n_csv += 1
                 extra = list(n_.args[1:]) + [k.value for k in n_.keywords if k.arg in ("dialect", "delimiter", "quotechar", "escapechar", "quoting", "skipinitialspace", "doublequote")]
                 varying = [x_ for x_ in extra if not isinstance(x_, ast.Constant) and not (isinstance(x_, ast.Attribute) and (idx.qualname(fi_.module, x_, fi_) or "").startswith("csv."))]
+                if len(varying) == 1 and isinstance(varying[0], ast.Name):
+                    choice = _fixed_dialects(idx, fi_, varying[0].id)
+                    if choice is not None and len(choice) == 1 and next(iter(choice)) in ("csv.excel",):
+                        varying = []
+                    elif choice is not None:
+                        # one of several fixed formats, picked by a test at run time: the format is not guessed from the data's
+                        # characters, but whether the test ever picks another format for a file the writer produced is not decided here
+                        undecided_.append("C17.i: `%s` is one of the fixed formats %s, chosen at run time; whether a table the writer produced is always read with the writer's format is not decided" % (varying[0].id, sorted(choice)))
+                        continue
                 ctx.ob("C17.i", "%s.execute::fixed-format@%s" % (d_.key, q_.split(".")[-1]), d_.module.rel, n_.lineno, not varying,
                        "constant format options" if not varying else "`%s` is given a format (`%s`) decided at run time: the same file may be split differently from what the writer produced" % (K.src(n_)[:50], K.src(varying[0])[:40]))
     ctx.floor("C17.i", "csv reader / writer constructions", n_csv, 2)
+    deferred_ = undecided_[0] if undecided_ else None
     d, r = rd
     n = iorules.param_domains(ctx, idx, "C17.a", d)
     ctx.floor("C17.a", "defaults / comparisons of cleaned parameters", n, 1)
@@ -351,6 +417,26 @@ def run(ctx, idx):
             lossy.append((n, "format spec"))
         if isinstance(n, ast.BinOp) and isinstance(n.op, ast.Mod) and isinstance(n.left, ast.Constant) and isinstance(n.left.value, str):
             lossy.append((n, "% formatting"))
+    # a conversion tested for the exact round trip where it is made: `float(int(v)).hex() == v.hex()` (all 64 bits, the sign of
+    # zero included; `float(int(v)) == v` would not do, -0.0 == 0) in the condition of the `if` whose body returns the converted value
+    def _exact_round_trip(call):
+        if not (isinstance(call.func, ast.Name) and call.func.id == "int" and len(call.args) == 1 and isinstance(call.args[0], ast.Name)):
+            return False
+        v_ = call.args[0].id
+        for if_ in [x for x in ast.walk(fi.node) if isinstance(x, ast.If)]:
+            if not any(call is y for st in if_.body for y in ast.walk(st)):
+                continue
+            conj = if_.test.values if isinstance(if_.test, ast.BoolOp) and isinstance(if_.test.op, ast.And) else [if_.test]
+            for t_ in conj:
+                if isinstance(t_, ast.Compare) and len(t_.ops) == 1 and isinstance(t_.ops[0], ast.Eq):
+                    sides = {K.src(t_.left), K.src(t_.comparators[0])}
+                    if sides == {"float(int(%s)).hex()" % v_, "%s.hex()" % v_}:
+                        return True
+        return False
+
+    guarded_ = {id(n_) for n_, _w in lossy if isinstance(n_, ast.Call) and _exact_round_trip(n_)}
+    # (the same conversion inside the round-trip test itself is part of the test, not of what is written)
+    lossy = [(n_, w_) for n_, w_ in lossy if id(n_) not in guarded_ and not (guarded_ and isinstance(n_, ast.Call) and K.src(n_) in {K.src(g_) for g_, _ in lossy if id(g_) in guarded_})]
     con = "%s.execute::lossless" % d.key
     wrows = [n for n in own_nodes(fi.node) if isinstance(n, ast.Call) and isinstance(n.func, ast.Attribute) and n.func.attr == "writerows"]
     if not wrows:
@@ -400,3 +486,5 @@ def run(ctx, idx):
         ctx.hold("C17.d", "%s.execute::rows-are-cells" % d.key, d.module.rel, line, how)
     from .C07 import dtype_rule
     dtype_rule(ctx, "C17.e", d, r)
+    if deferred_ is not None:
+        raise AnalysisError(deferred_)
